@@ -335,7 +335,7 @@ var flowVocab = [][2]string{
 	{"storeAppend", "call:bus.store.Append"}, {"setLastOffset", "set:bus.lastOffset"}, {"ifSaveOk", "if:saveErr == nil{"},
 	{"obsPersistStart", "call:bus.observability.OnPersistStart"}, {"obsPersistComplete", "call:bus.observability.OnPersistComplete"},
 	{"persistErrH", "call:bus.persistenceErrorHandler"}, {"forO", "for{"}, {"ifMarshalErr", "if:err != nil{"}, {"ifSaveErr", "if:saveErr != nil{"},
-	{"withTimeout", "call:context.WithTimeout"}, {"deferCancel", "defer:cancel"}, {"setCtx", "set:ctx"}, {"setCancel", "set:cancel"}, {"setErr", "set:err"},
+	{"withTimeout", "call:context.WithTimeout"}, {"ifPersistTimeout", "if:bus.persistenceTimeout > 0{"}, {"deferCancel", "defer:cancel"}, {"setCtx", "set:ctx"}, {"setCancel", "set:cancel"}, {"setErr", "set:err"},
 	// Shutdown
 	{"busWait", "call:bus.Wait"}, {"closeDone", "call:close"}, {"caseDone", "case:<-done{"}, {"storeClose", "call:closer.Close"},
 	// Replay / SubscribeWithReplay
